@@ -138,7 +138,7 @@ mod icu_locid_stub {
 // C20
 // ---------------------------------------------------------------------------------------------
 
-const FAMILIES: [&str; 9] = ["plural", "plural_plain", "plural_ordinal", "number", "currency", "date", "time", "datetime", "list"];
+const FAMILIES: [&str; 11] = ["plural", "plural_plain", "plural_ordinal", "plural_count_number", "plural_count_currency", "number", "currency", "date", "time", "datetime", "list"];
 const PLACEMENTS: [&str; 11] = ["literal-elsewhere", "literal-in-default", "none", "default-top", "nondefault-only", "subkey-depth2", "range-branch", "plural-form", "fk-target", "second-namespace", "surplus-only"];
 
 fn user_value(family: &str, tag: &str) -> Vec<(String, Val)> {
@@ -147,6 +147,9 @@ fn user_value(family: &str, tag: &str) -> Vec<(String, Val)> {
         "plural" => vec![("K_one".into(), s(vec![text(&format!("[{tag}.one]")), var("count")])), ("K_other".into(), s(vec![text(&format!("[{tag}.other]")), var("count")]))],
         // a plural whose forms hold no variable at all
         "plural_plain" => vec![("K_one".into(), st(&format!("[{tag}.one]"))), ("K_other".into(), st(&format!("[{tag}.other]")))],
+        // the count itself carries a formatter (the only use of that formatter family in the project)
+        "plural_count_number" => vec![("K_one".into(), s(vec![text(&format!("[{tag}.one]")), var("count")])), ("K_other".into(), s(vec![text(&format!("[{tag}.other]")), var_fmt("count", " number")]))],
+        "plural_count_currency" => vec![("K_one".into(), s(vec![var_fmt("count", " currency(width: narrow; currency_code: EUR)"), text(&format!("[{tag}.one]"))])), ("K_other".into(), s(vec![text(&format!("[{tag}.other]")), var("count")]))],
         // ordinal forms only: the generated code asks for the ordinal rules, which are a data key of their own
         "plural_ordinal" => vec![("K_ordinal_one".into(), s(vec![var("count"), text(&format!("[{tag}.st]"))])), ("K_ordinal_other".into(), s(vec![var("count"), text(&format!("[{tag}.th]"))]))],
         "number" => vec![("K".into(), s(vec![text(&format!("[{tag}]")), var_fmt("v", " number")]))],
